@@ -361,6 +361,19 @@ def judge_rewrite(ctx, case, o):
                sample={"mode": "loader_rewrite", "phases": phases})
 
 
+def suspicious_of_load(case: Dict[str, Any], o: Dict[str, Any]) -> bool:
+    """True when the outcome is of the kind a starved machine produces: watchdog, or a requested and correctly launched
+    server that never saw the end of the handshake."""
+    if o.get("watchdog"):
+        return True
+    for name, exp in (o.get("expect") or {}).items():
+        if name in case["names"]:
+            ls = (o.get("launches") or {}).get(name) or []
+            if len(ls) == 1 and not ls[0].get("initialized"):
+                return True
+    return False
+
+
 def judge(ctx, case: Dict[str, Any], o: Dict[str, Any]) -> None:
     mode, names = case["mode"], case["names"]
     if o.get("watchdog"):
@@ -513,7 +526,15 @@ def run(ctx):
             futs[ex.submit(one_case, cfg, mode, names)] = case
         for f in cf.as_completed(futs):
             try:
-                judge(ctx, futs[f], f.result())
+                o = f.result()
+                case = futs[f]
+                if suspicious_of_load(case, o):
+                    # a handshake that did not complete / an entry point that gave up can be the machine, not the library
+                    # (every step here has a wall-clock timeout of a few seconds and the children are real interpreters):
+                    # a genuine defect fails again, so the case is run once more, alone, and that run is judged
+                    ctx.count("cases_rerun_after_incomplete_handshake")
+                    o = one_case(case["cfg"], case["mode"], case["names"])
+                judge(ctx, case, o)
             except Exception as e:  # noqa
                 ctx.inconclusive_because(f"harness error judging {futs[f]['mode']}: {e!r}")
         rfuts = {ex.submit(rewrite_case, cfg): {"cfg": cfg, "mode": "loader_rewrite"} for cfg in cfgs[:6 if ctx.tier == "quick" else 40]}
